@@ -3,6 +3,7 @@ package props
 import (
 	"fmt"
 	"io"
+	"math"
 	"math/rand"
 	"sort"
 	"strings"
@@ -43,7 +44,8 @@ func c16pageSeqs(n int) [][]int {
 		}
 		return rep(v, k)
 	}
-	seqs := [][]int{per(1), per(2), per(n + 1), per(1_000_000_000), {0, 1, 0}, {-1, 1, -1}, {1, 0, 1}, {2, -1, 2, 0}}
+	seqs := [][]int{per(1), per(2), per(n + 1), per(1_000_000_000), {0, 1, 0}, {-1, 1, -1}, {1, 0, 1}, {2, -1, 2, 0},
+		{1, math.MaxInt, 1}, {math.MaxInt, math.MaxInt}, {2, math.MaxInt - 1, math.MaxInt32, 1}, {1, math.MinInt, 1}}
 	if n > 1 {
 		seqs = append(seqs, per(n-1), per(n))
 	}
@@ -83,6 +85,9 @@ func c16cases(env *core.Env) []c16case {
 				seq = append(seq, -1)
 			case 2:
 				seq = append(seq, n+r.Intn(3))
+				if r.Intn(4) == 0 {
+					seq[len(seq)-1] = math.MaxInt - r.Intn(3)
+				}
 			default:
 				seq = append(seq, 1+r.Intn(n/2+2))
 			}
@@ -96,7 +101,7 @@ func init() {
 	core.Register(&core.Prop{
 		ID:    "C16",
 		Level: "exploration",
-		Rule: "directories with 0,1,2,3,10,300,1200 children of mixed kinds (ground truth = the children the harness created) are presented through mem, keyvalue over a plain Store, mount (children that are mount points), a Sub view, the cache (full and minimal store), the tar FS (default and minimal destination) and os.FS; the by-name listing must contain each child once, sorted, agreeing with Stat; a directory handle is read with page-size sequences (1,2,N-1,N,N+1,10^9, mixed with 0 and -1, random) and checked against the fs.ReadDirFile contract; listing a regular file must fail with ErrNotDir. " +
+		Rule: "directories with 0,1,2,3,10,300,1200 children of mixed kinds (ground truth = the children the harness created) are presented through mem, keyvalue over a plain Store, mount (children that are mount points), a Sub view, the cache (full and minimal store), the tar FS (default and minimal destination) and os.FS; the by-name listing must contain each child once, sorted, agreeing with Stat; a directory handle is read with page-size sequences (1,2,N-1,N,N+1,10^9, MaxInt and MinInt also on a handle that has been read before, mixed with 0 and -1, random) and checked against the fs.ReadDirFile contract; listing a regular file must fail with ErrNotDir. " +
 			"Non-trivial: a paged session over a directory with >=2 children that took >=2 pages; distinct by (subject, size, page sequence)",
 		Assumptions: []string{"directories are not mutated between pages", "for a child that is a mount point only name and kind are compared"},
 		NumCases:    func(env *core.Env) int { return len(c16cases(env)) },
